@@ -25,6 +25,9 @@ type funcResult struct {
 }
 
 // verifyFunction generates all obligations of one function under contract.
+// pathCoversOn: set by the thorough tier (and by GOVC_PATHCOVER=1)
+var pathCoversOn bool
+
 func verifyFunction(w *World, specs *Specs, tt *TypeTable, fn *ssa.Function, c *Contract) (res *funcResult) {
 	vc := newVC(w, specs, tt)
 	vc.fn = fn
@@ -61,6 +64,7 @@ func verifyFunction(w *World, specs *Specs, tt *TypeTable, fn *ssa.Function, c *
 			vc.usedTrusted[fmt.Sprintf("A-WIRING: own precondition [%s] of %s is assumed where the method is reached through %s (established by the wiring phases, not checked at the dispatch site)", r.Label, shortFuncKey(c.Key), c.Implement)] = true
 		}
 	}
+	vc.pathCovers = pathCoversOn
 	vc.tparamsEnv = typeParamsOf(fn)
 	vc.findLoops()
 	vc.addAxioms()
@@ -384,6 +388,7 @@ type runOutput struct {
 
 func generate(o *options) (*runOutput, error) {
 	t0 := time.Now()
+	pathCoversOn = (o.tier == "thorough" && !o.scratch) || os.Getenv("GOVC_PATHCOVER") == "1"
 	w, err := loadWorld(o.repo, []string{"./..."})
 	if err != nil {
 		return nil, err
